@@ -514,6 +514,35 @@ theorem C12_pools_remove_reaches_every_pool (pools : List PoolG) (dead : List Na
   exact ⟨fun hs => group_remove_explicit (g := q.src) (by simpa [PoolG.remove] using hs),
          fun hd => group_remove_explicit (g := q.dst) (by simpa [PoolG.remove] using hd)⟩
 
+/-- **The cases of a pool step do not depend on the order in which the destination group is listed** (round 6): for
+    every permutation of `dst` the same agents are infected — every per-member quantity (contacts, susceptibility,
+    relative susceptibility, uniform number) is attached to the member, not to its position in the list. -/
+theorem C12_pool_dst_order_irrelevant {s : DState} {pl : Pool} {dst' : List Nat} {r : Nat → Rat}
+    (hp : dst'.Perm pl.dst) (u : Nat) :
+    u ∈ poolStep s { pl with dst := dst' } r ↔ u ∈ poolStep s pl r := by
+  have hE : dst'.isEmpty = pl.dst.isEmpty := by
+    rw [Bool.eq_iff_iff]; simp only [List.isEmpty_iff]
+    constructor
+    · intro h; subst h; exact List.nil_perm.mp hp
+    · intro h; rw [h] at hp; exact List.perm_nil.mp hp
+  unfold poolStep poolP
+  simp only [hE]
+  by_cases hb : pl.beta = 0
+  · simp [hb]
+  · by_cases he : (pl.src.isEmpty || pl.dst.isEmpty) = true
+    · simp [hb, he]
+    · simp only [hb, ↓reduceIte, he, Bool.false_eq_true, List.mem_filter, hp.mem_iff]
+
+/-- **A source group without members produces no case** (round 6), whatever the uniforms, the beta and the destination group. -/
+theorem C12_pool_empty_source_silent (s : DState) (pl : Pool) (r : Nat → Rat) (h : pl.src = []) :
+    poolStep s pl r = [] := by
+  unfold poolStep; simp [h]
+
+/-- non-vacuity: a destination group listed out of order, a member (3) whose uniform is too high; the others are infected. -/
+example : let s : DState := { susceptible := fun u => u ≥ 2, infectious := fun u => u < 2, relSus := fun _ => 1, relTrans := fun _ => 1 }
+    poolStep s { src := [0, 1], dst := [3, 2, 4], beta := 1, contacts := fun _ => 1 } (fun u => if u = 3 then 2 else 0) = [2, 4] := by
+  decide +kernel
+
 theorem poolStep_mem_dst {s : DState} {pl : Pool} {r : Nat → Rat} {u : Nat} (h : u ∈ poolStep s pl r) : u ∈ pl.dst := by
   unfold poolStep at h
   by_cases h1 : pl.beta = 0
